@@ -864,6 +864,11 @@ func (p Patch) add(doc *container, op Operation, options *ApplyOptions) error {
 func ensurePathExists(pd *container, path string, options *ApplyOptions) error {
 	doc := *pd
 
+	// A document that was replaced by null (a nil array) has no locations.
+	if ary, ok := doc.(*partialArray); ok && ary == nil {
+		return fmt.Errorf("unable to ensure path in a null document: %w", ErrMissing)
+	}
+
 	var err error
 	var arrIndex int
 
